@@ -194,7 +194,15 @@ def analyse(prog, functions):
                     if not any(d.node is st for d in defs):
                         continue
 
-                    def guard(lit, b, i, v=v):
+                    # another value is put in its place on the way (`if (end == NULL) end = begin + strlen(begin);`)
+                    redef = set(cfg.block_of(s9) for l9, r9, s9, k9 in query.stores(f) if s9 is not st and k9 == "=" and render(l9) == v and r9 is not None
+                                and not r9.is_null_const() and not (r9.strip().k == "CallExpr" and r9.strip().j.get("callee") in NULL_ANSWERS)
+                                and cfg.block_of(s9) != cfg.block_of(u))
+                    succ9 = {(b9, i9): t9 for (b9, i9, t9) in cfg.edges()}
+
+                    def guard(lit, b, i, v=v, redef=redef, succ9=succ9):
+                        if succ9.get((b, i)) in redef:
+                            return True
                         return lit is not None and lit.kind == "truth" and lit.pol and lit.atom == v
                     # implied by the assignment being the loop / if condition itself: (v = f(..)) != NULL
                     wp = cfg.feasible_reach(cfg.block_of(u), lambda lit, b, i, v=v: guard(lit, b, i) or (
